@@ -463,6 +463,7 @@ func genC05(c *Ctx) {
 		"(Apache-2.0-or-later))": "0", "(MIT OR Apache-2.0-or-later) AND ISC": "1", "Apache-2.0-or-later\tAND MIT": "0",
 		"MIT-only": "1", "FOO-only": "0", "FOO+": "0", "MIT WITH Bison-exception-2.2": "1", "GPL-2.0++": "1", "Apache-2.0++": "0",
 		"Apache-2.0-or-later+": "0", "MIT WITH Bison-exception-2.2+": "0", "WITH": "0", ":": "0", "MIT\tAND ISC": "0",
+		"": "0", " ": "0", "      ": "0", " MIT ": "1", "+": "0", " +": "0", "(": "0", ")": "0",
 	} {
 		if r := c.V(s); r != unknown && r != want {
 			c.fail("ValidateLicenses", []string{s}, r, want, "grammar of the property text (hand-derived corpus case)")
